@@ -262,6 +262,7 @@ def execModel (w : World) (toks : List String) (hint : String) : World × String
       (setP w k p', s!"{r.2.1.toNat} z{r.2.2.1} m{memOut (r.2.2.2.1.extract 0 show_)} e{errNum p'.err} d{getDepth p'} u{p'.used}" ++ (if r.2.2.2.2 || p'.fault then " FAULT" else ""))
   -- time class of to_string on one large bytes value: the specification is "linear" (C16); nothing to compute
   | ["tq", _] => (w, "lin")
+  | ["tq", _, _] => (w, "lin")
   | ["pr"] => withP fun p =>
       let r := print stdFmts p
       let p' := r.1
@@ -275,6 +276,12 @@ def execModel (w : World) (toks : List String) (hint : String) : World × String
   -- a NULL argument (binson_write_name(w, NULL), binson_write_raw(w, NULL, n)): ERROR_NULL, false, nothing stored or counted.
   -- Outside `WOp` (the theorems assume valid arguments); modelled here so that the latch and reset oracles see such histories.
   | ["wnN"] => withW fun x => let x' := { x with err := .null }; (setW w k x', wobs x' false)
+  -- binson_write_raw(w, p, SIZE_MAX): c = (used + SIZE_MAX) mod 2^64 is either > capacity or < used: RANGE (NULL for a NULL destination),
+  -- nothing stored, the counter wraps with it. Outside `WOp` (the theorems assume lengths that describe real objects, total < 2^63).
+  | ["wrH"] => withW fun x =>
+      let c := (x.used + (two64 - 1)) % two64
+      let x' := { x with err := (if x.bufNull then Err.null else Err.range), used := c }
+      (setW w k x', wobs x' false)
   | ["wrN", _] => withW fun x => let x' := { x with err := .null }; (setW w k x', wobs x' false)
   | ["wob"] => wOp .objBegin
   | ["woe"] => wOp .objEnd
@@ -372,6 +379,9 @@ structure WOracle where
   broken : Bool := false                -- a call whose effect the oracle does not predict (reset failed, ...)
   toks : List WOp := []                 -- ops since init/reset, newest first (C05 tree builder)
   base : Array UInt8 := #[]             -- destination contents at the last init / successful reset
+  lastE : String := "e0"                -- the writer part of the last observation (C11: a refused to_writer changes nothing)
+  lastC : String := "c0"
+  resetSeen : Bool := false             -- C12: a reset has returned true since the last init
   errNow : Bool := false                -- C09: the implementation reported a non-zero writer error in its last observation
   lastDump : Option String := none      -- C09: the last dump, if the error was already latched when it was taken
   deriving Inhabited
@@ -608,7 +618,9 @@ def writerLatchOracle (o : OState) (k : Nat) (toks : List String) (impl : String
     | some e =>
       -- init and a successful reset clear the latch legitimately
       let cleared := (toks.headD "" == "W") || (toks.headD "" == "wx" && parts.headD "" == "1")
-      setWO o { wo with errNow := e, lastDump := if cleared || !e then none else wo.lastDump }
+      let (le, lc) := match parts with | _ :: e' :: c' :: _ => (e', c') | _ => (wo.lastE, wo.lastC)
+      setWO o { wo with errNow := e, lastDump := (if cleared || !e then none else wo.lastDump), lastE := le, lastC := lc,
+                        resetSeen := (if toks.headD "" == "W" then false else wo.resetSeen || (toks.headD "" == "wx" && parts.headD "" == "1")) }
     | none => o
 
 def writerOracle (o : OState) (k : Nat) (toks : List String) (impl : String) : OState :=
@@ -634,7 +646,7 @@ def writerOracle (o : OState) (k : Nat) (toks : List String) (impl : String) : O
     let isNull := cap == "NULL"
     setWO o { cap := if isNull then 0 else cap.toNat!, isNull := isNull, broken := isNull,
               base := pattern (if isNull then 0 else cap.toNat!) }
-  | ["wnN"] | ["wrN", _] => setWO o { wo with broken := true }
+  | ["wnN"] | ["wrN", _] | ["wrH"] => setWO o { wo with broken := true }
   | ["wx"] =>
     -- C12: a reset that returned true leaves a writer that is like a fresh one: counter 0, no error
     let o := (match parts with
@@ -678,7 +690,12 @@ def writerOracle (o : OState) (k : Nat) (toks : List String) (impl : String) : O
          let cN := (dropPrefix c 1).toNat!
          let eN := (dropPrefix e 1).toNat!
          let o := if cN != wo.total then o.flag "C04" s!"@{k} counter {cN} after {toks}, exact encoded size {wo.total}" else o
+         -- C09: "the counter keeps counting" after the first failing write
+         let o := if cN != wo.total && wo.errNow then o.flag "C09" s!"@{k} the counter stopped counting after an error: {cN} after {toks}, exact encoded size {wo.total}" else o
          let o := if (eN == 1) != (wo.total > wo.cap) then o.flag "C04" s!"@{k} error {eN} but size {wo.total} vs capacity {wo.cap}" else o
+         -- C12: after a reset that returned true the writer behaves like a fresh one over the same destination
+         let o := if wo.resetSeen && (cN != wo.total || (eN == 1) != (wo.total > wo.cap)) then
+             o.flag "C12" s!"@{k} after a reset that returned true the writer does not behave like a fresh one: counter {cN} error {eN}, a fresh writer would have counter {wo.total} and RANGE iff {wo.total} > {wo.cap}" else o
          let o := if (r == "1") != (wo.total ≤ wo.cap) then o.flag "C09" s!"@{k} write returned {r} with size {wo.total} vs capacity {wo.cap}" else o
          -- C05: when the root object has just been closed, the bytes are encode(v)
          (match op with
@@ -735,6 +752,24 @@ def oracleStep (o : OState) (toks : List String) (impl : String) : OState :=
       (o.flag "C12" s!"@{k} {op}: the internal print/to_string callback is still installed on the parser object after the call returned; every later call on this object (after reset, on any document) invokes it with a dangling context").flag
         "C01" s!"@{k} {op}: the internal print/to_string callback is still installed after the call returned: later calls run it on a dead stack frame and write through its stale destination pointer"
     else o
+  -- C11: parser_to_writer on anything that is not an un-entered container returns false and changes nothing - the writer included
+  let o := if op == "p2w" then
+      (match impl.splitOn " | " with
+       | [pp, wp] =>
+         let wo := o.ws.getD k {}
+         let wparts := wp.splitOn " "
+         -- refused = get_raw refused: the parser did not move (a container that was extracted but did not fit the writer is a RANGE error, not a refusal)
+         let o := if pp.startsWith "0" && (parseObs pp).used == po.lastUsed && (parseObs pp).err == po.lastErr then
+             (match wparts with
+              | _ :: e :: c :: _ => if e != wo.lastE || c != wo.lastC then
+                    o.flag "C11" s!"@{k} parser_to_writer was refused but changed the writer: error/counter {wo.lastE}/{wo.lastC} became {e}/{c}" else o
+              | _ => o)
+           else o
+         (match wparts with
+          | _ :: e :: c :: _ => { o with ws := o.ws.setIfInBounds k { wo with lastE := e, lastC := c, errNow := e != "e0" } }
+          | _ => o)
+       | _ => o)
+    else o
   -- C12 regions
   let o := match toks with
     | ["M", "a0"] => { o with region := 1, regionA := [] }
@@ -750,7 +785,7 @@ def oracleStep (o : OState) (toks : List String) (impl : String) : OState :=
   if op == "M" then o else
   if op.startsWith "x" then cppOracle o op toks impl else
   if op == "C" then { o with ps := #[{}, {}, {}, {}], ws := #[{}, {}, {}, {}], nCases := o.nCases + 1, region := 0 } else
-  if ["W", "wx", "wob", "woe", "wab", "wae", "wb", "wi", "wd", "ws", "wn", "wy", "wr", "wc", "wv", "dump", "wnN", "wrN", "wrA"].contains op then
+  if ["W", "wx", "wob", "woe", "wab", "wae", "wb", "wi", "wd", "ws", "wn", "wy", "wr", "wc", "wv", "dump", "wnN", "wrN", "wrA", "wrH"].contains op then
     writerOracle o k toks impl else
   if op == "P" then
     setPO o { md := (toks.getD 1 "0").toNat! } else
